@@ -58,8 +58,16 @@ func init() {
 				return 18
 			case strings.HasSuffix(name, ".bundleParts"):
 				return 19
+			case strings.HasSuffix(name, ".replaceBundle"):
+				return 22
 			case strings.HasSuffix(name, ".Load"):
 				return 20
+			case name == "fragmentPayloadLen":
+				return 21
+			case strings.HasSuffix(name, "os.Rename"):
+				return 23
+			case name == "f.Close":
+				return 24
 			}
 			return 0
 		}
@@ -82,6 +90,7 @@ func init() {
 		var fns = map[string]*ast.FuncDecl{}
 		for _, f := range []struct{ recv, name, out string }{
 			{"Store", "Push", "push"}, {"Store", "Update", "update"}, {"Store", "Delete", "delete"},
+			{"Store", "ReplaceBundle", "replaceOp"}, {"BundlePart", "replaceBundle", "replaceFile"},
 			{"Store", "DeleteExpired", "deleteExpired"}, {"Store", "QueryId", "queryId"},
 			{"Store", "QueryPending", "queryPending"}, {"Store", "KnowsBundle", "knowsBundle"},
 			{"BundlePart", "storeBundle", "storeBundle"}, {"BundlePart", "deleteBundle", "deleteBundle"},
@@ -99,7 +108,8 @@ func init() {
 		// no other Lock/Unlock, no `go` statement; then every index access (s.bh.*, s.QueryId) is made
 		// while the mutex is held. Table entries: (function code * 100 + call code, held).
 		var table []string
-		for fi, out := range []string{"push", "update", "delete"} {
+		// ReplaceBundle (function 4) takes no lock; its only index access is the read QueryId.
+		for fi, out := range []string{"push", "update", "delete", "replaceOp"} {
 			fd := fns[out]
 			held := false
 			if len(fd.Body.List) >= 2 {
@@ -154,6 +164,17 @@ func init() {
 		x.Bool("storeAppends", strings.Contains(flags, "O_APPEND"))
 		x.Bool("storeExclusive", strings.Contains(flags, "O_EXCL"))
 
+		rflags := ""
+		ast.Inspect(fns["replaceFile"].Body, func(n ast.Node) bool {
+			if ce, ok := n.(*ast.CallExpr); ok && exprName(ce.Fun) == "os.OpenFile" && len(ce.Args) >= 2 {
+				rflags = x.Src(ce.Args[1])
+			}
+			return true
+		})
+		x.Str("replaceOpenFlags", rflags)
+		x.Bool("replaceTruncatesTmp", strings.Contains(rflags, "O_TRUNC") && strings.Contains(rflags, "O_CREATE") &&
+			strings.Contains(rflags, "O_WRONLY") && !strings.Contains(rflags, "O_APPEND"))
+
 		// ---- naming
 		src := func(recv, name string) string {
 			fd, err := x.Func(dir, recv, name)
@@ -181,6 +202,18 @@ func init() {
 		x.Bool("pushAppendsPart", strings.Contains(push, "biStore.Parts = append(biStore.Parts, compPart)"))
 		x.Bool("pushUpdatesStoredItem", strings.Contains(push, "s.bh.Update(biStore.Id, biStore)"))
 		x.Bool("pushInsertsNewItem", strings.Contains(push, "s.bh.Insert(bi.Id, bi)"))
+		x.Bool("pushReplacesIfLonger", strings.Contains(push,
+			"if stored, err := compPart.Load(); err == nil && fragmentPayloadLen(stored) >= fragmentPayloadLen(b)") &&
+			strings.Contains(push, "return compPart.replaceBundle(b)"))
+		rf := src("BundlePart", "replaceBundle")
+		x.Bool("replaceWritesTmpThenRenames", strings.Contains(rf, `tmpFilename := bp.Filename + ".tmp"`) &&
+			strings.Contains(rf, "os.OpenFile(tmpFilename,") && strings.Contains(rf, "return os.Rename(tmpFilename, bp.Filename)"))
+		ro := src("Store", "ReplaceBundle")
+		x.Bool("replaceOpMatchesOffsetTotal", strings.Contains(ro,
+			"part.FragmentOffset == bid.FragmentOffset && part.TotalDataLength == bid.TotalDataLength") &&
+			strings.Contains(ro, "return part.replaceBundle(b)") && strings.Contains(ro, "bi, err := s.QueryId(bid)"))
+		x.StrList("replaceOpSkeleton", x.Skeleton(fns["replaceOp"]))
+		x.StrList("replaceFileSkeleton", x.Skeleton(fns["replaceFile"]))
 		x.StrList("pushSkeleton", x.Skeleton(fns["push"]))
 		x.StrList("deleteSkeleton", x.Skeleton(fns["delete"]))
 
